@@ -17,8 +17,11 @@ import (
 	"net"
 	"net/http"
 	"net/http/httptest"
+	"os"
+	"os/exec"
 	"sort"
 	"strconv"
+	"strings"
 	"sync"
 	"testing"
 	"time"
@@ -49,7 +52,7 @@ func (t *timingRT) RoundTrip(req *http.Request) (*http.Response, error) {
 type nHits struct{ n uint64 }
 
 func (p nHits) Pace(_ time.Duration, hits uint64) (time.Duration, bool) { return 0, hits >= p.n }
-func (p nHits) Rate(time.Duration) float64                                { return 0 }
+func (p nHits) Rate(time.Duration) float64                              { return 0 }
 
 type combo struct {
 	conns     int
@@ -158,5 +161,38 @@ func TestC05(t *testing.T) {
 		}
 	}
 	R.Part("transport", "combinations", len(cs))
+	raceCompanion(R)
 	R.Finish(t)
+}
+
+// raceCompanion runs ../c05race (unrewritten code, free-running, -race): the
+// stamping of sequence number and timestamp by concurrently running workers.
+// It can only ever report true races (or a functional failure of that run); it
+// is auxiliary, not the deciding step.
+func raceCompanion(R *ev.Run) {
+	if os.Getenv("VERIF_NO_RACE") != "" {
+		return
+	}
+	args := []string{"test", "-race", "-count=1", "-vet=off", "-run", "^TestRaceC05$", "./c05race"}
+	if mf := os.Getenv("VERIF_MODFILE"); mf != "" {
+		args = append([]string{"test", "-modfile=" + mf}, args[1:]...)
+	}
+	cmd := exec.Command("go", args...)
+	cmd.Dir = os.Getenv("VERIF_DIR") + "/harness"
+	cmd.Env = append(os.Environ(), "CGO_ENABLED=1")
+	out, err := cmd.CombinedOutput()
+	so := string(out)
+	res := map[string]any{"cmd": "go " + strings.Join(args, " "), "ok": err == nil}
+	if strings.Contains(so, "WARNING: DATA RACE") {
+		res["race"] = true
+		R.Violation("race:hit-path", map[string]any{"output": ev.Trunc(so, 3000)})
+	} else if err != nil {
+		res["error"] = ev.Trunc(so, 1500)
+		if strings.Contains(so, "--- FAIL") {
+			R.Violation("race-companion:functional-failure", map[string]any{"output": ev.Trunc(so, 3000)})
+		} else {
+			R.Cap("race companion could not run: " + ev.Trunc(so, 300))
+		}
+	}
+	R.Set("race_companion", res)
 }
